@@ -483,10 +483,10 @@ fn gen(rng: &mut Rng, tier: &str) -> Vec<(String, Value)> {
     let n = if thorough { 2500 } else { 260 };
     for i in 0..n {
         let mut r = rng.fork();
-        let nb = *r.pick(&[1u64, 1, 2, 3, 5, 1024]);
+        let nb = *r.pick(&[1u64, 1, 2, 2, 3, 3, 5, 5, 1024]);
         let msz = if r.chance(1, 4) { 11 } else { 4 };
         let pool = r.range(2, 8);
-        let nops = r.range(8, if thorough { 45 } else { 30 });
+        let nops = if nb == 1024 { r.range(6, 14) } else { r.range(8, if thorough { 45 } else { 30 }) };
         let names: Vec<Value> = (0..pool).map(|j| {
             if r.chance(1, 6) { json!((0..r.range(0, 40)).map(|x| ((x * 7 + j) % 256) as u8).collect::<Vec<u8>>()) } else { json!([97 + j, 48 + (i % 10)]) }
         }).collect();
@@ -548,7 +548,11 @@ fn gen(rng: &mut Rng, tier: &str) -> Vec<(String, Value)> {
             cases.push(("production.append_archive".into(), json!({"create": "default", "msz": 4, "init": init, "ops": ops})));
         }
     }
-    cases
+    // the checker evaluates contiguous chunks in 16 parallel shards: deal the cases out so that every shard gets
+    // the same mix of cheap and expensive classes (deterministic transposition, nothing is dropped)
+    let mut dealt: Vec<(usize, (String, Value))> = cases.into_iter().enumerate().collect();
+    dealt.sort_by_key(|(i, _)| (i % 16, i / 16));
+    dealt.into_iter().map(|(_, c)| c).collect()
 }
 
 fn main() { drive(gen, run) }
